@@ -224,8 +224,13 @@ impl<F: Read + Seek> Seek for Stream<F> {
                 > self.buf_offset_from_start + self.buffer.filled_len() as u64
         {
             self.flush_changes()?;
+            // Writing the buffer back refreshes `total_len` from the directory
+            // entry; if that turned out shorter than this handle believed
+            // (the entry was changed behind its back), don't seek past it.
+            let new_pos = new_pos.min(self.total_len);
             self.buf_offset_from_start = new_pos;
             self.buffer.clear();
+            return Ok(new_pos);
         } else {
             self.buffer.seek((new_pos - self.buf_offset_from_start) as usize);
         }
